@@ -21,7 +21,8 @@ for d, r in sorted(res.items()):
     own = checks.get(prop, {})
     by = 'missed'
     if own.get('rc') == 1:
-        by = 'bounded' if any('bounded' in l for l in own.get('lines', [])) and not any('obligation=' in l or 'kani' in l for l in own.get('lines', [])) else 'proof'
+        vl = [l for l in own.get('lines', []) if l.startswith('VIOLATION')]
+        by = 'proof' if any('-bounded-' not in l for l in vl) else 'bounded'
     elif own.get('rc') == 2:
         by = 'undecided'
     meta = dict(id=sid, property=prop, source='fresh sub-agent given only the property text and a scratch worktree of /repo',
@@ -32,7 +33,7 @@ for d, r in sorted(res.items()):
                             'python3 vc/check.py %s with VERIF_REPO=<copy>' % prop],
                 checks={p: dict(exit=c['rc'], lines=c['lines'][:3]) for p, c in checks.items()}, detected_by=by)
     json.dump(meta, open(os.path.join(out, 'meta.json'), 'w'), indent=1)
-    rows.append((sid, prop, confirmed, by, own.get('rc'), (own.get('lines') or [''])[0][:150], {p: c['rc'] for p, c in checks.items() if p != prop}))
+    rows.append((sid, prop, confirmed, by, own.get('rc'), ([l for l in own.get('lines', []) if l.startswith('VIOLATION')] or own.get('lines') or [''])[0][:150], {p: c['rc'] for p, c in checks.items() if p != prop}))
 with open(os.path.join(VERIF, 'seeded', 'SUMMARY.md'), 'w') as f:
     f.write('# Seeded changes and which check catches them\n\n')
     f.write('Each change was written by a fresh sub-agent that saw only the property text and a scratch worktree; each was confirmed here '
